@@ -30,7 +30,8 @@ def model_walk(repo: Repo, cls: str, method: str) -> Walker:
 def graph_walk(repo: Repo, cls: str, method: str) -> Walker:
     fi = repo.need_method(cls, method)
     return Walker(repo, fi, self_class=cls,
-                  inline=lambda f: f.cls in GRAPH_CLASSES and f.name.startswith("_") and not f.name.startswith("__"))
+                  inline=lambda f: f.name.startswith("_") and not f.name.startswith("__") and (
+                      f.cls in GRAPH_CLASSES or (f.cls is None and f.module.startswith(("opfython.subgraphs", "opfython.core")))))
 
 
 def run_kinds(rep: Rep, w: Walker, prefix: str = "", rules=("K1", "K2", "K3", "K4", "K5")) -> dict:
